@@ -178,8 +178,93 @@ fn eval_explicit(case: &str) -> Out {
     Out { result: verdict, pred_fail }
 }
 
+// ------------------------------------------------------------------------------------------------ the repository's real-network vector
+/// the transaction and spent output of the doc example of `verify_tx_amt_proofs` (src/blind.rs), scraped from the source
+pub fn doc_vector() -> Option<(Transaction, Vec<TxOut>)> {
+    let repo = std::env::var("ELEMENTS_REPO").unwrap_or_else(|_| "/repo".into());
+    let src = std::fs::read_to_string(format!("{}/src/blind.rs", repo)).ok()?;
+    let lit = |anchor: &str| -> Option<Vec<u8>> {
+        let at = src.find(anchor)?;
+        let rest = &src[at..];
+        let q1 = rest.find('"')? + 1;
+        let q2 = q1 + rest[q1..].find('"')?;
+        unhex(&rest[q1..q2])
+    };
+    let tx: Transaction = elements::encode::deserialize(&lit("let tx: Transaction = deserialize(&hex::hex!(")?).ok()?;
+    let asset: Asset = elements::encode::deserialize(&lit("let conf_asset : confidential::Asset = deserialize(&hex::hex!(")?).ok()?;
+    let value: Value = elements::encode::deserialize(&lit("let conf_value : confidential::Value = deserialize(&hex::hex!(")?).ok()?;
+    let spk: Script = elements::encode::deserialize(&lit("let spk : script::Script = deserialize(&hex::hex!(")?).ok()?;
+    Some((tx, vec![TxOut { asset, value, nonce: elements::confidential::Nonce::Null, script_pubkey: spk, witness: elements::TxOutWitness::default() }]))
+}
+/// a FABRICATED opened form for the vector (its true openings are unknown): every confidential commitment gets the fee asset,
+/// amount 1 and small blinding factors, the last one the factor that balances; the single input carries the total
+fn fabricate(tx: &Transaction) -> Option<(String, Vec<(u64, ValueBlindingFactor, AssetId, AssetBlindingFactor, bool)>)> {
+    let fee_asset = tx.output.iter().find(|o| o.is_fee())?.asset.explicit()?;
+    let sc = |k: u8| { let mut b = [0u8; 32]; b[31] = k; b };
+    let mut outs = vec![];
+    let mut total: u64 = 0;
+    for (j, o) in tx.output.iter().enumerate() {
+        if let (Some(a), Some(v)) = (o.asset.explicit(), o.value.explicit()) { outs.push((v, ValueBlindingFactor::zero(), a, AssetBlindingFactor::zero(), false)); total += v; }
+        else if o.asset.is_confidential() && o.value.is_confidential() {
+            outs.push((1, ValueBlindingFactor::from_slice(&sc(40 + j as u8)).ok()?, fee_asset, AssetBlindingFactor::from_slice(&sc(20 + j as u8)).ok()?, true)); total += 1;
+        } else { return None; }
+    }
+    let in_abf = AssetBlindingFactor::from_slice(&sc(5)).ok()?;
+    let in_vbf = ValueBlindingFactor::from_slice(&sc(6)).ok()?;
+    // balance the last confidential output
+    let last = outs.iter().rposition(|o| o.4)?;
+    let others: Vec<(u64, AssetBlindingFactor, ValueBlindingFactor)> = outs.iter().enumerate().filter(|(j, _)| *j != last).map(|(_, o)| (o.0, o.3, o.1)).collect();
+    outs[last].1 = ValueBlindingFactor::last(secp(), outs[last].0, outs[last].3, &[(total, in_abf, in_vbf)], &others);
+    let ins = format!("00:{}:{}:{}:{}:-", tag_hex(&fee_asset), abf_hex(&in_abf), total, vbf_hex(&in_vbf));
+    Some((ins, outs))
+}
+fn eval_opened(case: &str) -> Out {
+    let (tx0, spent0) = match doc_vector() { Some(x) => x, None => return Out::ok("harnesserr vector".into()) };
+    let ts = match field(case, "tamper") { Some(t) => t, None => return Out::ok("harnesserr tamper".into()) };
+    let t = match parse_tamper(ts) { Some(t) => t, None => return Out::ok("harnesserr tamper".into()) };
+    let base = verify_verdict(&tx0, &spent0);
+    let (mut tx, mut spent) = (tx0.clone(), spent0.clone());
+    let (app, chg) = match apply_tamper(&t, &mut tx, &mut spent) { Some(x) => x, None => return Out::ok("harnesserr cannot corrupt".into()) };
+    let tampered = verify_verdict(&tx, &spent);
+    let pred_fail = if base == "ok" && app && chg && tampered == "ok" {
+        Some(format!("tampered-tx-verifies|verify_tx_amt_proofs accepts the real-network vector after tamper {} ({})", ts, class_of(&t)))
+    } else { None };
+    Out { result: format!("app={} chg={} base={} tampered={}", app as u8, chg as u8, base, tampered), pred_fail }
+}
+/// every tamper class at every applicable position of the vector
+fn vector_cases(rng: &mut ChaCha20Rng) -> Vec<Case> {
+    let mut out = vec![];
+    let Some((tx, _)) = doc_vector() else { return out };
+    let Some((ins, outs)) = fabricate(&tx) else { return out };
+    let bout = outs.iter().zip(tx.output.iter()).map(|(o, t)| format!("{}:{}:{}:{}:{}:{}", tag_hex(&o.2), o.0, abf_hex(&o.3), vbf_hex(&o.1),
+        if t.script_pubkey.is_empty() { "-".to_string() } else { hex(t.script_pubkey.as_bytes()) }, if o.4 { "c" } else { "e" })).collect::<Vec<_>>().join(";");
+    let mut ts: Vec<String> = vec![];
+    let n = outs.len();
+    for (j, o) in outs.iter().enumerate() {
+        if o.4 {
+            ts.push(format!("oval:{}:{}", j, vdesc(o.0 + 1, &o.1, &o.2, &o.3)));
+            ts.push(format!("oasset:{}:{}", j, adesc(&o.2, &rabf(rng))));
+            for k in ["rmrp", "corrp", "rmsp", "corsp"] { ts.push(format!("{}:{}", k, j)); }
+            ts.push(format!("script:{}:{}", j, hex(&raddr_script(rng))));
+            for k in j + 1..n { if outs[k].4 { for t in ["swapval", "swapasset", "swaprp", "swapsp"] { ts.push(format!("{}:{}:{}", t, j, k)); } } }
+        } else {
+            ts.push(format!("oval:{}:E{}", j, o.0 + 1));
+            ts.push(format!("oasset:{}:E{}", j, tag_hex(&rasset_id(rng))));
+        }
+    }
+    let sc = |k: u8| { let mut b = [0u8; 32]; b[31] = k; b };
+    let total: u64 = outs.iter().map(|o| o.0).sum();
+    ts.push(format!("sval:0:{}", vdesc(total + 1, &ValueBlindingFactor::from_slice(&sc(6)).unwrap(), &outs[0].2, &AssetBlindingFactor::from_slice(&sc(5)).unwrap())));
+    ts.push(format!("sasset:0:{}", adesc(&outs[0].2, &AssetBlindingFactor::from_slice(&sc(7)).unwrap())));
+    for t in ts {
+        let tp = match parse_tamper(&t) { Some(x) => x, None => continue };
+        out.push(Case { text: format!("C05 opened in={} bout={} vec=doc tamper={}", ins, bout, t), tags: vec![format!("tamper-{}", class_of(&tp)), "real-network-vector".into()], nontrivial: true });
+    }
+    out
+}
+
 pub fn eval(case: &str) -> Out {
-    match case.split(' ').nth(1).unwrap_or("") { "tamper" => eval_tamper(case), "explicit" => eval_explicit(case), _ => Out::ok("harnesserr kind".into()) }
+    match case.split(' ').nth(1).unwrap_or("") { "tamper" => eval_tamper(case), "explicit" => eval_explicit(case), "opened" => eval_opened(case), _ => Out::ok("harnesserr kind".into()) }
 }
 
 // ------------------------------------------------------------------------------------------------ generators
@@ -238,8 +323,12 @@ pub fn all_tampers(rng: &mut ChaCha20Rng, spec: &TxSpec, b: &Blinded) -> Vec<Str
 
 pub fn gen(rng: &mut ChaCha20Rng, n: usize, thorough: bool) -> Vec<Case> {
     let mut out = Vec::new();
+    // (0) the repository's real-network vector (doc example of verify_tx_amt_proofs), every class at every position
+    let vc = vector_cases(rng);
+    let n_vec = vc.len();
+    out.extend(vc);
     // (1) tampers of blinded transactions: every class at every applicable position (thorough) or a sample of them per transaction (quick)
-    let n_tamper = n * 3 / 4;
+    let n_tamper = n_vec + n * 3 / 4;
     let mut k = 0;
     while out.len() < n_tamper {
         let sh = Shape { nin: 1 + k % 3, nassets: 1 + (k / 3) % 2, extra_outs: 1 + (k / 2) % 3, iss: [0, 1, 0, 2, 3][k % 5], fee: k % 4 != 3 };
@@ -269,7 +358,7 @@ pub fn gen(rng: &mut ChaCha20Rng, n: usize, thorough: bool) -> Vec<Case> {
     }
     // (2) all-explicit transactions
     let mut k = 0;
-    while out.len() < n {
+    while out.len() < n_vec + n {
         let sh = Shape { nin: 1 + k % 4, nassets: 1 + (k / 2) % 3, extra_outs: k % 3, iss: [0, 1, 2, 0][k % 4], fee: k % 3 != 2 };
         let mut tags = vec![];
         let mut spec = gen_balanced(rng, &sh, &mut tags);
